@@ -151,7 +151,7 @@ def refusal(kind):
     return lambda pkg: run_obligation(pkg, fn)
 
 
-def graph_roundtrip(cycles, se2_param_id=None):
+def graph_roundtrip(cycles, se2_param_id=None, shared_id=False):
     def fn(it):
         it.vfs = {}
         # the last two vertices are not referred to by any edge
@@ -159,7 +159,9 @@ def graph_roundtrip(cycles, se2_param_id=None):
         # (se2_param_id=0: the file defines a 2-D offset parameter with the very id the 2-D landmark edges carry; those edges
         #  were written without an offset -- identity -- and must come back with the identity)
         p2 = build_param(it, "G2OParameterSE2Offset", "p2", pid=None if se2_param_id is None else Poly.const(se2_param_id))
-        p3 = build_param(it, "G2OParameterSE3Offset", "p3")
+        # shared_id: the 2-D and the 3-D offset parameter carry the same id (they are different parameters: the table is keyed by
+        # (kind, id)); both must survive the round trip
+        p3 = build_param(it, "G2OParameterSE3Offset", "p3", pid=ga(p2, "key")[1] if shared_id else None)
         ident = it.call_classmethod(ClassRef("PoseSE2"), "identity", [])
         edges = [build_odometry(it, "PoseSE2", "e0", vs[0], vs[4]),
                  build_landmark(it, "PoseSE3", "e1", vs[2], vs[3], ga(p3, "value"), ga(p3, "key")[1]),
@@ -285,6 +287,7 @@ def run(run_, pkg, tier):
     for c in ((1, 2) if tier == "quick" else (1, 2, 3)):
         add("C13-roundtrip/Graph/cycles=%d" % c, "C13-L3-graph-order", graph_roundtrip(c), gt)
     add("C13-roundtrip/Graph/se2-offset-parameter-with-id-0", "C13-L3-graph-order", graph_roundtrip(1, se2_param_id=0), gt)
+    add("C13-roundtrip/Graph/2-D-and-3-D-offset-parameters-share-an-id", "C13-L3-graph-order", graph_roundtrip(1, shared_id=True), gt)
     add("C13-refuse/Graph/landmark-edges-without-parameter-table", "C13-L4-refuse-rather-than-alter", graph_without_parameter_table(), gt)
     results = run_tasks(pkg, tasks)
     record(run_, tasks, results)
@@ -299,4 +302,4 @@ def run(run_, pkg, tier):
                     extra.append(("C13-roundtrip/Graph/%d-lines (directed at the size constant %d in the code)" % (k, c), "C13-L3-graph-order",
                                   sized_graph_roundtrip(k), "%s:%d" % (gt._gs_module, gt.lineno)))
         record(run_, extra, run_tasks(pkg, extra))
-    run_.floor("C13 obligations", len(tasks) if run_.only is None else 23, 23)
+    run_.floor("C13 obligations", len(tasks) if run_.only is None else 24, 24)
